@@ -1,7 +1,7 @@
 """C15 — big_map operations and lazy diffs agree with a dictionary layered over the on-chain contents.
 
 Model checking (explicit-state BFS, canonical-state dedup).  One *run* fixes a configuration:
-  key type, key universe K (2 or 3 keys), how the big_map comes to exist ("source"):
+  key type, key universe K (1, 2 or 3 keys), how the big_map comes to exist ("source"):
     fresh    EMPTY_BIG_MAP (real instruction)                          -- nothing on chain
     literal  storage literal { Elt k v ; ... } attached to the context -- nothing on chain, initial local layer L0
     chain    storage `<id>` attached to a context whose shell serves the on-chain contents D by script-expr hash
@@ -10,18 +10,35 @@ Model checking (explicit-state BFS, canonical-state dedup).  One *run* fixes a c
 The on-chain contents are served by a fake node (an RpcNode subclass answering `get`) behind the REAL ShellQuery, so
 ExecutionContext.get_big_map_value builds the real RPC path  .../context/big_maps/<id>/<expr hash>.
 
+A configuration may hold a SECOND big_map in the same execution context (cfg['second']: own key type, source and contents;
+on-chain id 5 next to id 7, on-chain values distinct from the first map's).  Both live where a contract would have them: the
+storage is `pair (big_map ..) (big_map ..)` (one or both given by id / by literal), a `copy` arrives through the parameter, a
+`fresh` one comes from EMPTY_BIG_MAP.  The two maps share their key universe (also under two key types whose packed keys
+coincide, int/nat), so the same key hash is looked up in both: whatever the context carries from one call to the next
+(id registry, temporary ids, anything remembered about the node's answers) is exercised by every interleaving.
+
 From the initial state the explorer applies every operation of the alphabet
-  GET k, MEM k, UPDATE k None|Some v, GET_AND_UPDATE k None|Some v          (k in K, v in {0,1})
-through the REAL instruction classes on a REAL MichelsonStack, in lock-step with mc.ref.layered.Layered.
+  GET k, MEM k, UPDATE k None|Some v, GET_AND_UPDATE k None|Some v          (k in K, v in {0,1}; on either big_map)
+through the REAL instruction classes on a REAL MichelsonStack, in lock-step with mc.ref.layered.Layered (one per big_map).
   * every transition: the observation (GET/GET_AND_UPDATE option, MEM bool) must equal the reference's;
   * every new state: the history is replayed on a fresh context and the real aggregate_lazy_diff (what
-    MichelsonProgram.end calls) is judged: every key_hash == base58('expr', blake2b-256(reference PACK(key)));
+    MichelsonProgram.end calls) of EVERY big_map is judged: every key_hash == base58('expr', blake2b-256(reference PACK(key)));
     no key twice with conflicting content; the updates applied IN ORDER to D (keyed by hash) == the reference's final
     dictionary; alloc diffs carry the declared key/value types; merge_lazy_diff of that diff reads the same content;
-  * every new state (not for `copy`): the same history as a contract through Interpreter.run_code (fresh context, BEGIN,
-    code with DUP/PUSH/GET/..., END) must emit a lazy_diff with the same content and pass the same judgement.
-States are deduplicated on (reference layer, implementation items/removed_keys/ptr); a violating transition is not
-expanded further, so the first counterexample reported is a shortest one.
+  * every new state (storage-held and single fresh maps only): the same history as a contract through Interpreter.run_code
+    (fresh context, BEGIN, code with DUP/PUSH/GET/..., END) must emit a lazy_diff with the same content and pass the same judgement.
+States are deduplicated on (reference layers, implementation items/removed_keys/ptr of every map); a violating transition is
+not expanded further, so the first counterexample reported is a shortest one.
+With ONE big_map the explorer's objects share one context for the whole run (its tables are fixed per run).  With TWO big_maps
+what the context carries from call to call is the point, so every transition is executed on a fresh world on which exactly the
+shortest history of its pre-state has been replayed (the recorded history IS the whole call history of that context, and
+`--replay` reproduces it), and the state also contains the set of (id, key hash) lookups the node has answered so far - a
+read that only touches the context (GET k on map 0 before GET k on map 1) therefore leads to a new state and is explored.
+
+Key types.  Besides the hand-picked ones, a generated family: every type with a distinct optimized (PACK) form - address,
+key_hash, chain_id, key, signature, a right comb of three - alone, under each of the five one-hole contexts
+`or _ nat`, `or nat _`, `option _`, `pair _ nat`, `pair nat _`, and under every composition of two of them (three levels),
+because the key hash is taken of the OPTIMIZED rendering and every container has to pass that mode down.
 """
 from __future__ import annotations
 
@@ -37,28 +54,44 @@ from mc.ref.layered import Layered, apply_diff
 ID = 'C15'
 LEVEL = 'model_checking'
 RULE = ('per configuration (key type, key universe, source in fresh/literal/chain/copy, every assignment of on-chain or '
-        'literal contents to the keys): BFS over operation histories from the alphabet GET/MEM/UPDATE/GET_AND_UPDATE x key x '
-        '{None, Some 0, Some 1}, deduplicated on (reference layer, implementation items+removed_keys+ptr), to closure under a '
-        'depth cap. states = distinct (configuration, canonical state); transitions = real instruction executions judged; '
+        'literal contents to the keys; optionally a second big_map with its own source/contents in the same execution context): '
+        'BFS over operation histories from the alphabet GET/MEM/UPDATE/GET_AND_UPDATE x big_map x key x '
+        '{None, Some 0, Some 1}, deduplicated on (reference layers, implementation items+removed_keys+ptr of every map; with two maps '
+        'also the set of (id, key hash) lookups the node has answered, and every transition is executed on a fresh world on which the '
+        'history of its pre-state was replayed, so the recorded history is the complete call history of the context), to closure '
+        'under a depth cap. states = distinct (configuration, canonical state); transitions = real instruction executions judged; '
         'traces = shortest history of every state replayed from scratch (direct + through Interpreter.run_code). '
         'non-trivial = distinct (configuration, pre-state, operation) where the operation writes, or reads a key that is '
         'bound on chain or was written before')
-BOUND = {'quick': 'key types int (|K|=2 and |K|=3) and string (|K|=3), on-chain values {absent,2}, literal values {absent,0,1}, all 4 sources, '
-                  'closure of the state graph (reached at depth <= 2|K|+1; caps: depth 8, 5*4^|K| states per configuration)',
-         'thorough': '12 key types (int, string, pair, bytes, address, nat, mutez, key_hash, option, or, 3-comb, chain_id) with '
-                     '|K|=3, on-chain values {absent,0,2}; int keys with |K|=4, on-chain values {absent,2}; literal values '
-                     '{absent,0,1}; all 4 sources; closure (caps: depth 10, 5*4^|K| states per configuration)'}
+BOUND = {'quick': 'one map: key types int (|K|=2 and |K|=3) and string (|K|=3); |K|=2 for 60 generated key types: the 6 types with a distinct '
+                  'optimized form (address, key_hash, chain_id, key, signature, 3-comb) alone, each under the 5 one-hole contexts '
+                  '(or L/R, option, pair L/R; combs of 4+ excluded: 29 types) and one of them under each of the 25 two-level contexts; '
+                  'on-chain values {absent,2}, literal values {absent,0,1}, all 4 sources. two maps in one context (every transition on a '
+                  'freshly replayed world): |K|=1 for the key-type pairs int/int, int/nat, (or address nat)/(or address nat) x all 16 '
+                  'source pairs x every content (second map: on-chain {absent,3}, literal {absent,1}); |K|=2 int/int chain+chain for the 5 '
+                  'content pairs "complementary splits" and "both full", writes None/Some 0. closure of the state graph (caps: depth 8, '
+                  '12 for two maps; 5*4^(keys) states per configuration)',
+         'thorough': 'one map: 12 key types (int, string, pair, bytes, address, nat, mutez, key_hash, option, or, 3-comb, chain_id) with '
+                     '|K|=3, on-chain values {absent,0,2}; int keys with |K|=4, on-chain values {absent,2}; the 6 distinct-optimized-form '
+                     'types under all one- and two-level contexts (180 types, combs of 4+ excluded) with |K|=2 and under the one-level '
+                     'contexts with |K|=3; literal values {absent,0,1}; all 4 sources. two maps in one context: |K|=2 int/int for all 16 '
+                     'source pairs x every content (literal values {absent,0} / {absent,1}), |K|=1 for 15 key-type pairs (each of the 12 '
+                     'with itself, int/nat, nat/mutez, (or address nat) with itself) x 16 source pairs. closure (caps: depth 10, 14 for two '
+                     'maps; 5*4^(keys) states per configuration)'}
 ASSUMPTIONS = ['the canonical state (items, removed_keys as a set, ptr) determines the future behaviour of a BigMapType whose '
                'context tables are fixed per run; the order of removed_keys (hash order) only permutes diff entries',
                'lazy diffs are read as Tezos applies them: entries in order, a later entry for the same key wins; two '
                'entries for one key with identical content are tolerated',
                'a `copy` diff is judged as "contents of the source map, then the updates" (pytezos does not emit the source id)',
-               'key hashes of the explored key types (no combs of 4+) are the same for PACK and for big_map indexing']
+               'key hashes of the explored key types (no combs of 4+) are the same for PACK and for big_map indexing',
+               'with two big_maps in one run_code storage, alloc diffs are attributed to the literal maps in storage order '
+               '(pytezos numbers fresh ids in traversal order); on-chain maps are attributed by id']
 LEVEL_TEXT = ('every history over a 3-key universe reaches one of finitely many canonical states; BFS closes the state graph for '
-              'every split of the keys between chain and local layer, so within the alphabet the agreement with the layered '
-              'dictionary is decided, not sampled')
+              'every split of the keys between chain and local layer (also for two big_maps sharing one execution context), so '
+              'within the alphabet the agreement with the layered dictionary is decided, not sampled')
 
-CHAIN_ID = 7          # id of the on-chain big_map
+CHAIN_IDS = (7, 5)    # ids of the on-chain big_maps (first, second map of a configuration)
+CHAIN_ID = CHAIN_IDS[0]
 VT = ('nat',)
 VALS = [0, 1]
 KEYTYPES = {
@@ -77,40 +110,154 @@ KEYTYPES = {
 }
 OPTS = [None] + [('Some', v) for v in VALS]
 
+# ---- generated key types: a type whose optimized form differs from the readable one, under 0, 1 or 2 containers
+NAT = ('nat',)
+SPECIAL = [('address',), ('key_hash',), ('chain_id',), ('key',), ('signature',), ('pair', NAT, ('pair', NAT, NAT))]
+WRAPPERS = [lambda x: ('or', x, NAT), lambda x: ('or', NAT, x), lambda x: ('option', x),
+            lambda x: ('pair', x, NAT), lambda x: ('pair', NAT, x)]
 
-def alphabet(nk):
+
+def max_comb(t):
+    """Length of the longest right comb of pairs inside t."""
+    n, x = 1, t
+    while x[0] == 'pair':
+        n, x = n + 1, x[2]
+    return max([n if t[0] == 'pair' else 1] + [max_comb(a) for a in t[1:]])
+
+
+def keys_of(t):
+    """Up to 3 collision-forcing keys of type t, simplest first; the hole of every container is visited by the first two."""
+    p = t[0]
+    if p == 'or':
+        a, b = keys_of(t[1]), keys_of(t[2])
+        out = [('L', a[0]), ('R', b[0])] + [('L', x) for x in a[1:]] + [('R', x) for x in b[1:]]
+    elif p == 'option':
+        a = keys_of(t[1])
+        out = [('Some', a[0]), None] + [('Some', x) for x in a[1:]]
+    elif p == 'pair':
+        a, b = keys_of(t[1]), keys_of(t[2])
+        out = [(a[0], b[0]), (a[1], b[0]), (a[0], b[1])]
+    else:
+        out = list(T.domain(t, 3))
+    return out[:3]
+
+
+def _generated():
+    d0 = list(SPECIAL)
+    d1 = [w(x) for x in SPECIAL for w in WRAPPERS]
+    d2_all, d2_diag, i = [], [], 0
+    for w1 in WRAPPERS:
+        for w2 in WRAPPERS:
+            ok = [w1(w2(x)) for x in SPECIAL if max_comb(w1(w2(x))) <= 3]
+            d2_all += ok
+            rot = [w1(w2(SPECIAL[(i + j) % len(SPECIAL)])) for j in range(len(SPECIAL))]
+            d2_diag.append(next(t for t in rot if max_comb(t) <= 3))
+            i += 1
+    d1 = [t for t in d1 if max_comb(t) <= 3]
+    return d0, d1, d2_diag, d2_all
+
+
+GEN0, GEN1, GEN2_DIAG, GEN2_ALL = _generated()
+GEN = {T.t_str(t): (t, keys_of(t)) for t in GEN0 + GEN1 + GEN2_ALL}
+
+
+def keytype(name):
+    return KEYTYPES[name] if name in KEYTYPES else GEN[name]
+
+
+def alphabet(nslots, opts=None):
+    """Operations over `nslots` = (number of big_maps) x |K| slots; slot = map * |K| + key; opts = indexes into OPTS written."""
     ops = []
-    for k in range(nk):
+    for k in range(nslots):
         ops.append(('GET', k))
         ops.append(('MEM', k))
     for nm in ('UPDATE', 'GET_AND_UPDATE'):
-        for k in range(nk):
-            for o in range(len(OPTS)):
+        for k in range(nslots):
+            for o in (opts or range(len(OPTS))):
                 ops.append((nm, k, o))
     return ops
 
 
 # --------------------------------------------------------------------------------------------- configurations
+SOURCES = ('chain', 'literal', 'copy', 'fresh')
+
+
+def contents(source, nk, chain_vals, lit_vals):
+    if source == 'fresh':
+        return [[None] * nk]
+    vals = lit_vals if source == 'literal' else chain_vals
+    return [list(c) for c in itertools.product(vals, repeat=nk)]
+
+
+def one_map(out, ktname, nk, chain_vals, cap):
+    out.append({'kt': ktname, 'nk': nk, 'source': 'fresh', 'content': [None] * nk, 'cap': cap})
+    for content in itertools.product([None] + VALS, repeat=nk):
+        out.append({'kt': ktname, 'nk': nk, 'source': 'literal', 'content': list(content), 'cap': cap})
+    for src in ('chain', 'copy'):
+        for content in itertools.product(chain_vals, repeat=nk):
+            out.append({'kt': ktname, 'nk': nk, 'source': src, 'content': list(content), 'cap': cap})
+
+
+def two_maps(out, kt1, kt2, nk, pairs, lit1, cap, opts=None, keep=None):
+    """First map: on-chain values {absent,2}, literal values lit1; second map: on-chain {absent,3}, literal {absent,1}.
+    opts: indexes into OPTS the write operations use (default: all); keep(c1, c2): which pairs of contents to take (default: all)."""
+    for s1, s2 in pairs:
+        for c1 in contents(s1, nk, [None, 2], lit1):
+            for c2 in contents(s2, nk, [None, 3], [None, 1]):
+                if keep and not keep(c1, c2):
+                    continue
+                cfg = {'kt': kt1, 'nk': nk, 'source': s1, 'content': c1, 'cap': cap,
+                       'second': {'kt': kt2, 'source': s2, 'content': c2}}
+                if opts:
+                    cfg['opts'] = list(opts)
+                out.append(cfg)
+
+
 def configs(tier):
     out = []
+    all_pairs = [(a, b) for a in SOURCES for b in SOURCES]
+    or_addr = T.t_str(('or', ('address',), NAT))
     if tier == 'quick':
-        plan = [('int', 2, [None, 2]), ('int', 3, [None, 2]), ('string', 3, [None, 2])]
-        cap = 8
+        for ktname, nk, chain_vals in [('int', 2, [None, 2]), ('int', 3, [None, 2]), ('string', 3, [None, 2])]:
+            one_map(out, ktname, nk, chain_vals, 8)
+        # |K|=2 on two on-chain maps: the second map binds exactly the keys the first does not, or both bind every key
+        two_maps(out, 'int', 'int', 2, [('chain', 'chain')], [None, 0], 12, opts=[0, 1],
+                 keep=lambda c1, c2: all((a is None) != (b is None) for a, b in zip(c1, c2)) or None not in c1 + c2)
+        for kt1, kt2 in [('int', 'int'), ('int', 'nat'), (or_addr, or_addr)]:
+            two_maps(out, kt1, kt2, 1, all_pairs, [None, 0, 1], 12)
+        for t in GEN0 + GEN1 + GEN2_DIAG:
+            one_map(out, T.t_str(t), 2, [None, 2], 8)
     else:
-        plan = [(kt, 3, [None, 0, 2]) for kt in KEYTYPES] + [('int', 4, [None, 2])]
-        cap = 10
-    for ktname, nk, chain_vals in plan:
-        out.append({'kt': ktname, 'nk': nk, 'source': 'fresh', 'content': [None] * nk, 'cap': cap})
-        for content in itertools.product([None] + VALS, repeat=nk):
-            out.append({'kt': ktname, 'nk': nk, 'source': 'literal', 'content': list(content), 'cap': cap})
-        for src in ('chain', 'copy'):
-            for content in itertools.product(chain_vals, repeat=nk):
-                out.append({'kt': ktname, 'nk': nk, 'source': src, 'content': list(content), 'cap': cap})
+        for kt in KEYTYPES:
+            one_map(out, kt, 3, [None, 0, 2], 10)
+        one_map(out, 'int', 4, [None, 2], 10)
+        two_maps(out, 'int', 'int', 2, all_pairs, [None, 0], 14)
+        for kt in KEYTYPES:
+            two_maps(out, kt, kt, 1, all_pairs, [None, 0, 1], 14)
+        for kt1, kt2 in [('int', 'nat'), ('nat', 'mutez'), (or_addr, or_addr)]:
+            two_maps(out, kt1, kt2, 1, all_pairs, [None, 0, 1], 14)
+        for t in GEN1:
+            one_map(out, T.t_str(t), 3, [None, 2], 10)
+        seen = set()
+        for t in GEN0 + GEN1 + GEN2_ALL:
+            if t not in seen:
+                seen.add(t)
+                one_map(out, T.t_str(t), 2, [None, 2], 10)
     return out
 
 
 def shards(tier, seed):
     return configs(tier)
+
+
+def cfg_key_of(cfg):
+    k = (cfg['kt'], cfg['nk'], cfg['source'], tuple(cfg['content']))
+    if cfg.get('opts'):
+        k += ('opts', tuple(cfg['opts']))
+    if cfg.get('second'):
+        s = cfg['second']
+        k += ('+', s['kt'], s['source'], tuple(s['content']))
+    return k
 
 
 # --------------------------------------------------------------------------------------------- the world of one run
@@ -156,65 +303,115 @@ def json_copy(x):
     return json.loads(json.dumps(x))
 
 
+class MapSpec:
+    """One big_map of a configuration: key type, key universe, source, on-chain contents / initial literal layer."""
+
+    def __init__(self, m, ktname, nk, source, content):
+        self.m, self.source = m, source
+        self.KT, keys = keytype(ktname)
+        self.keys = keys[:nk]
+        if len(self.keys) != nk or len(set(self.keys)) != nk:
+            raise RuntimeError(f'harness: key type {ktname} has no {nk} distinct keys')
+        self.id = CHAIN_IDS[m]
+        self.kt_expr = T.t_to_micheline(self.KT)
+        self.vt_expr = T.t_to_micheline(VT)
+        self.bm_expr = {'prim': 'big_map', 'args': [self.kt_expr, self.vt_expr]}
+        self.chain, self.local0 = {}, {}
+        if source in ('chain', 'copy'):
+            self.chain = {self.keys[i]: v for i, v in enumerate(content) if v is not None}
+        if source == 'literal':
+            self.local0 = {self.keys[i]: ('Some', v) for i, v in enumerate(content) if v is not None}
+        self.hash = {k: T.script_expr_hash(T.pack(self.KT, k)) for k in self.keys}
+
+    def literal_expr(self):
+        items = T.sorted_set(self.KT, list(self.local0))
+        return [{'prim': 'Elt', 'args': [T.v_to_micheline(self.KT, k), T.v_to_micheline(VT, self.local0[k][1])]} for k in items]
+
+    def section_value(self):
+        return self.literal_expr() if self.source == 'literal' else {'int': str(self.id)}
+
+    def reference(self):
+        return Layered(self.chain, self.local0)
+
+
+_SPECS = {}
+
+
+def map_spec(*key):
+    """MapSpec objects are immutable descriptions (reference side only): one per distinct description and process."""
+    if key not in _SPECS:
+        _SPECS[key] = MapSpec(*key)
+    return _SPECS[key]
+
+
 class World:
-    """Fresh context + fake node + the big_map under test, for one configuration."""
+    """Fresh context + fake node + the big_map(s) under test, for one configuration."""
 
     def __init__(self, cfg):
         from pytezos.context.impl import ExecutionContext
         from pytezos.rpc.shell import ShellQuery
         self.cfg = cfg
-        self.KT, self.keys = KEYTYPES[cfg['kt']]
-        self.keys = self.keys[:cfg['nk']]
-        self.kt_expr = T.t_to_micheline(self.KT)
-        self.vt_expr = T.t_to_micheline(VT)
-        self.bm_expr = {'prim': 'big_map', 'args': [self.kt_expr, self.vt_expr]}
-        src = cfg['source']
-        self.chain = {}
-        if src in ('chain', 'copy'):
-            self.chain = {self.keys[i]: v for i, v in enumerate(cfg['content']) if v is not None}
-        self.local0 = {}
-        if src == 'literal':
-            self.local0 = {self.keys[i]: ('Some', v) for i, v in enumerate(cfg['content']) if v is not None}
-        self.hash = {k: T.script_expr_hash(T.pack(self.KT, k)) for k in self.keys}
-        served = {(CHAIN_ID, self.hash[k]): T.v_to_micheline(VT, v) for k, v in self.chain.items()}
+        self.nk = cfg['nk']
+        self.maps = [map_spec(0, cfg['kt'], cfg['nk'], cfg['source'], tuple(cfg['content']))]
+        if cfg.get('second'):
+            s = cfg['second']
+            self.maps.append(map_spec(1, s['kt'], cfg['nk'], s['source'], tuple(s['content'])))
+        self.tag = ' [two big_maps in one context]' if len(self.maps) == 2 else ''
+        served = {}
+        for sp in self.maps:
+            for k, v in sp.chain.items():
+                served[(sp.id, sp.hash[k])] = T.v_to_micheline(VT, v)
         self.node = node_cls()(served)
         self.shell = ShellQuery(node=self.node)
         self.ctx = ExecutionContext(shell=self.shell)
-        self.bm = self._make()
+        self.bms = self._make()
+        # run_code can express the configuration when every map sits in the storage (or is the single fresh map)
+        self.e2e = all(sp.source in ('chain', 'literal') for sp in self.maps) or (len(self.maps) == 1 and cfg['source'] == 'fresh')
 
-    def literal_expr(self):
-        items = T.sorted_set(self.KT, list(self.local0))
-        return [{'prim': 'Elt', 'args': [T.v_to_micheline(self.KT, k), T.v_to_micheline(VT, self.local0[k][1])]} for k in items]
+    def slot(self, s):
+        """slot -> (map spec, reference key)."""
+        sp = self.maps[s // self.nk]
+        return sp, sp.keys[s % self.nk]
 
     def _make(self):
         from pytezos.michelson.micheline import Micheline
         from pytezos.michelson.sections.parameter import ParameterSection
         from pytezos.michelson.sections.storage import StorageSection
         from pytezos.michelson.stack import MichelsonStack
-        src = self.cfg['source']
-        if src == 'fresh':
-            st = MichelsonStack()
-            Micheline.match({'prim': 'EMPTY_BIG_MAP', 'args': [self.kt_expr, self.vt_expr]}).execute(st, [], self.ctx)
-            assert len(st.items) == 1
-            return st.items[0]
-        if src == 'copy':
-            sec = ParameterSection.match({'prim': 'parameter', 'args': [self.bm_expr]}).from_micheline_value({'int': str(CHAIN_ID)})
-        else:
-            sec = StorageSection.match({'prim': 'storage', 'args': [self.bm_expr]}).from_micheline_value(
-                {'int': str(CHAIN_ID)} if src == 'chain' else self.literal_expr())
-        sec.attach_context(self.ctx)       # what MichelsonProgram.begin / BEGIN do
-        return sec.item
+        bms = [None] * len(self.maps)
+        groups = [(ParameterSection, 'parameter', [sp for sp in self.maps if sp.source == 'copy']),
+                  (StorageSection, 'storage', [sp for sp in self.maps if sp.source in ('chain', 'literal')])]
+        for cls, prim, group in groups:      # the order of MichelsonProgram.begin: parameter, then storage
+            if not group:
+                continue
+            ty, val = section_of(group)
+            sec = cls.match({'prim': prim, 'args': [ty]}).from_micheline_value(val)
+            sec.attach_context(self.ctx)       # what MichelsonProgram.begin / BEGIN do
+            items = [sec.item] if len(group) == 1 else list(sec.item.items)
+            if len(items) != len(group):
+                raise ShapeError(f'{prim} section of {len(group)} big_maps holds {len(items)} items')
+            for sp, it in zip(group, items):
+                bms[sp.m] = it
+        for sp in self.maps:
+            if sp.source == 'fresh':
+                st = MichelsonStack()
+                Micheline.match({'prim': 'EMPTY_BIG_MAP', 'args': [sp.kt_expr, sp.vt_expr]}).execute(st, [], self.ctx)
+                assert len(st.items) == 1
+                bms[sp.m] = st.items[0]
+        return bms
 
     def reference(self):
-        return Layered(self.chain, self.local0)
+        return tuple(sp.reference() for sp in self.maps)
 
     # ---- one real instruction
-    def step(self, bm, op):
-        """-> (observation, new big_map object).  Raises whatever the instruction raises."""
+    def step(self, bms, op):
+        """-> (observation, new list of big_map objects).  Raises whatever the instruction raises."""
         from pytezos.michelson.instructions.struct import GetAndUpdateInstruction, GetInstruction, MemInstruction, UpdateInstruction
         from pytezos.michelson.stack import MichelsonStack
         from pytezos.michelson.types.big_map import BigMapType
-        key = A.to_impl(self.KT, self.keys[op[1]])
+        sp, rk = self.slot(op[1])
+        bm = bms[sp.m]
+        key = A.to_impl(sp.KT, rk)
         name = op[0]
         if name in ('GET', 'MEM'):
             st = MichelsonStack([key, bm])
@@ -222,26 +419,45 @@ class World:
             if len(st.items) != 1:
                 raise ShapeError(f'{name} left {len(st.items)} items')
             if name == 'GET':
-                return ('opt', A.from_impl(st.items[0], ('option', VT))), bm
-            return ('bool', A.from_impl(st.items[0], ('bool',))), bm
+                return ('opt', A.from_impl(st.items[0], ('option', VT))), bms
+            return ('bool', A.from_impl(st.items[0], ('bool',))), bms
         val = A.to_impl(('option', VT), OPTS[op[2]])
         st = MichelsonStack([key, val, bm])
         if name == 'UPDATE':
             UpdateInstruction.execute(st, [], self.ctx)
             if len(st.items) != 1 or not isinstance(st.items[0], BigMapType):
                 raise ShapeError(f'UPDATE left {st.items!r}')
-            return None, st.items[0]
-        GetAndUpdateInstruction.execute(st, [], self.ctx)
-        if len(st.items) != 2 or not isinstance(st.items[1], BigMapType):
-            raise ShapeError(f'GET_AND_UPDATE left {st.items!r}')
-        return ('opt', A.from_impl(st.items[0], ('option', VT))), st.items[1]
+            obs, new = None, st.items[0]
+        else:
+            GetAndUpdateInstruction.execute(st, [], self.ctx)
+            if len(st.items) != 2 or not isinstance(st.items[1], BigMapType):
+                raise ShapeError(f'GET_AND_UPDATE left {st.items!r}')
+            obs, new = ('opt', A.from_impl(st.items[0], ('option', VT))), st.items[1]
+        out = list(bms)
+        out[sp.m] = new
+        return obs, out
 
-    def canon(self, bm):
+    def canon1(self, sp, bm):
         items = []
         for k, v in bm.items:
-            items.append((repr(A.from_impl(k, self.KT)), None if v is None else repr(A.from_impl(v, VT))))
-        removed = sorted(repr(A.from_impl(k, self.KT)) for k in bm.removed_keys)
+            items.append((repr(A.from_impl(k, sp.KT)), None if v is None else repr(A.from_impl(v, VT))))
+        removed = sorted(repr(A.from_impl(k, sp.KT)) for k in bm.removed_keys)
         return (bm.ptr, tuple(items), tuple(removed), bm.context is self.ctx)
+
+    def canon(self, bms):
+        c = tuple(self.canon1(sp, bm) for sp, bm in zip(self.maps, bms))
+        return c[0] if len(c) == 1 else c
+
+    def canon_core(self, bms):
+        """The part of the canonical state a replay from scratch must reproduce (ptr, items, removed keys)."""
+        return tuple(self.canon1(sp, bm)[:3] for sp, bm in zip(self.maps, bms))
+
+
+def section_of(group):
+    if len(group) == 1:
+        return group[0].bm_expr, group[0].section_value()
+    return ({'prim': 'pair', 'args': [sp.bm_expr for sp in group]},
+            {'prim': 'Pair', 'args': [sp.section_value() for sp in group]})
 
 
 class ShapeError(Exception):
@@ -258,7 +474,8 @@ def reraise_gap(e):
 
 
 def op_text(w, op):
-    k = T.v_str(w.KT, w.keys[op[1]])
+    sp, rk = w.slot(op[1])
+    k = T.v_str(sp.KT, rk) + (f' @map{sp.m}' if len(w.maps) > 1 else '')
     if len(op) == 2:
         return f'{op[0]} {k}'
     o = OPTS[op[2]]
@@ -271,17 +488,24 @@ def op_class(op):
     return f'{op[0]} {"None" if OPTS[op[2]] is None else "Some"}'
 
 
-def ref_op(w, op):
-    if len(op) == 2:
-        return (op[0], w.keys[op[1]])
-    return (op[0], w.keys[op[1]], OPTS[op[2]])
+def ref_step(w, refs, op):
+    """-> (expected observation, new tuple of reference models)."""
+    sp, rk = w.slot(op[1])
+    obs, r2 = refs[sp.m].step((op[0], rk) if len(op) == 2 else (op[0], rk, OPTS[op[2]]))
+    return obs, refs[:sp.m] + (r2,) + refs[sp.m + 1:]
+
+
+def refs_canon(refs):
+    c = tuple(r.canon() for r in refs)
+    return c[0] if len(c) == 1 else c
 
 
 # --------------------------------------------------------------------------------------------- judging a lazy diff
-def judge_diff(w, ld, ref, via):
-    """-> (list of (what, detail), content dict keyed by hash or None).  `ld` is the list aggregate_lazy_diff filled."""
+def judge_diff(w, sp, ld, ref, via):
+    """-> (list of (what, detail), content dict keyed by hash or None).  `ld`: the diff entries attributed to big_map `sp`
+    (the list aggregate_lazy_diff filled)."""
     out = []
-    src = w.cfg['source']
+    src = sp.source
     mine = [d for d in ld if d.get('kind') == 'big_map']
     if len(mine) != 1 or len(ld) != 1:
         return [(f'{via}: expected exactly one big_map diff, got {len(ld)}', json.dumps(ld)[:400])], None
@@ -289,93 +513,122 @@ def judge_diff(w, ld, ref, via):
     diff = d['diff']
     action = diff.get('action')
     exp_action = {'fresh': 'alloc', 'literal': 'alloc', 'chain': 'update', 'copy': 'copy'}[src]
-    if action != exp_action or (src == 'chain' and d.get('id') != str(CHAIN_ID)) or (src != 'chain' and not str(d.get('id', '')).isdigit()):
+    if action != exp_action or (src == 'chain' and d.get('id') != str(sp.id)) or (src != 'chain' and not str(d.get('id', '')).isdigit()):
         out.append((f'{via}: diff action/id unexpected for a {src} big_map', f'action={action} id={d.get("id")}'))
         return out, None
     if action == 'alloc':
         kt = T.t_from_micheline(A.strip_annots(diff.get('key_type') or {'prim': '?'}))
         vt = T.t_from_micheline(A.strip_annots(diff.get('value_type') or {'prim': '?'}))
-        if kt != w.KT or vt != VT:
+        if kt != sp.KT or vt != VT:
             out.append((f'{via}: alloc diff carries wrong key/value type', f'{kt} {vt}'))
     entries = []
     for u in diff.get('updates', []):
         try:
-            k = T.v_from_micheline(w.KT, u['key'])
+            k = T.v_from_micheline(sp.KT, u['key'])
             v = ('Some', T.v_from_micheline(VT, u['value'])) if 'value' in u else None
         except (T.BadValue, KeyError) as e:
             out.append((f'{via}: diff entry is not a well-formed key/value', f'{u} ({e})'))
             return out, None
-        h = T.script_expr_hash(T.pack(w.KT, k))
+        h = T.script_expr_hash(T.pack(sp.KT, k))
         if u.get('key_hash') != h:
             out.append((f'{via}: key_hash is not the script-expr hash of the packed key',
-                        f'key {u["key"]}: got {u.get("key_hash")}, expected {h}'))
+                        f'key type {T.t_str(sp.KT)} key {u["key"]}: got {u.get("key_hash")}, expected {h}'))
         entries.append((h, k, v))
     seen = {}
     for h, k, v in entries:
         if h in seen and seen[h] != v:
             out.append((f'{via}: diff mentions a key twice with conflicting content',
-                        f'key {T.v_str(w.KT, k)}: {seen[h]} and {v}; diff={json.dumps(diff.get("updates"))[:600]}'))
+                        f'key {T.v_str(sp.KT, k)}: {seen[h]} and {v}; diff={json.dumps(diff.get("updates"))[:600]}'))
             return out, None
         seen[h] = v
-    base = {w.hash[k]: v for k, v in w.chain.items()} if action in ('update', 'copy') else {}
+    base = {sp.hash[k]: v for k, v in sp.chain.items()} if action in ('update', 'copy') else {}
     got = apply_diff(base, [(h, v) for h, _, v in entries])
-    exp = {w.hash[k]: v for k, v in ref.final().items()}
+    exp = {sp.hash[k]: v for k, v in ref.final().items()}
     if got != exp:
-        bad = [k for k in w.keys if got.get(w.hash[k]) != exp.get(w.hash[k])]
-        extra = sorted(set(got) - set(w.hash.values()))
+        bad = [k for k in sp.keys if got.get(sp.hash[k]) != exp.get(sp.hash[k])]
+        extra = sorted(set(got) - set(sp.hash.values()))
         out.append((f'{via}: diff applied to the on-chain contents differs from the dictionary',
-                    f'keys {[T.v_str(w.KT, k) for k in bad]} extra={extra}: dictionary={ {T.v_str(w.KT, k): v for k, v in ref.final().items()} } '
+                    f'keys {[T.v_str(sp.KT, k) for k in bad]} extra={extra}: dictionary={ {T.v_str(sp.KT, k): v for k, v in ref.final().items()} } '
                     f'chain+diff={got} updates={json.dumps(diff.get("updates"))[:600]}'))
     return out, seen
 
 
-def judge_merge(w, ld, res_bm, ref):
+def judge_merge(w, sp, ld, res_bm, ref):
     """merge_lazy_diff (how pytezos reads a diff back into a BigMapType) must read the same content."""
     merged = res_bm.merge_lazy_diff(ld)
     ups = []
     for k, v in merged.items:
-        ups.append((w.hash.get(A.from_impl(k, w.KT), repr(k)), ('Some', A.from_impl(v, VT))))
+        ups.append((sp.hash.get(A.from_impl(k, sp.KT), repr(k)), ('Some', A.from_impl(v, VT))))
     for k in merged.removed_keys:
-        ups.append((w.hash.get(A.from_impl(k, w.KT), repr(k)), None))
+        ups.append((sp.hash.get(A.from_impl(k, sp.KT), repr(k)), None))
     if len({h for h, _ in ups}) != len(ups):
         return []    # duplicates: already judged on the raw diff
-    base = {w.hash[k]: v for k, v in w.chain.items()} if w.cfg['source'] in ('chain', 'copy') else {}
+    base = {sp.hash[k]: v for k, v in sp.chain.items()} if sp.source in ('chain', 'copy') else {}
     got = apply_diff(base, ups)
-    exp = {w.hash[k]: v for k, v in ref.final().items()}
+    exp = {sp.hash[k]: v for k, v in ref.final().items()}
     if got != exp:
         return [('merge_lazy_diff of the emitted diff differs from the dictionary', f'merged items={merged.items!r} removed={merged.removed_keys!r}')]
     return []
 
 
+def attribute(w, ld):
+    """Split the lazy_diff list of one run_code over the big_maps of the storage: on-chain maps by id, literal/fresh maps
+    take the alloc entries in order.  -> list (one entry list per map) | None when the entries cannot be attributed."""
+    is_upd = lambda d: isinstance(d, dict) and d.get('kind') == 'big_map' and d.get('diff', {}).get('action') == 'update'
+    upd, rest = [d for d in ld if is_upd(d)], [d for d in ld if not is_upd(d)]
+    out = []
+    for sp in w.maps:
+        if sp.source == 'chain':
+            out.append([d for d in upd if d.get('id') == str(sp.id)])
+        else:
+            out.append([rest.pop(0)] if rest else [])
+    if rest or sum(len(x) for x in out) != len(ld):
+        return None
+    return out
+
+
 # --------------------------------------------------------------------------------------------- replaying a history
 def replay_direct(cfg, history):
-    """Fresh world, real instructions.  -> (world, big_map, reference, observations)."""
+    """Fresh world, real instructions.  -> (world, big_maps, references, observations)."""
     w = World(cfg)
-    bm, ref, obs = w.bm, w.reference(), []
+    bms, refs, obs = w.bms, w.reference(), []
     for op in history:
-        o, bm = w.step(bm, tuple(op))
-        _, ref = ref.step(ref_op(w, tuple(op)))
+        o, bms = w.step(bms, tuple(op))
+        _, refs = ref_step(w, refs, tuple(op))
         obs.append(o)
-    return w, bm, ref, obs
+    return w, bms, refs, obs
 
 
 def script_for(w, history):
-    """The history as a contract (Micheline) for Interpreter.run_code: parameter unit; storage (big_map kt vt)."""
+    """The history as a contract (Micheline) for Interpreter.run_code: parameter unit; storage = the big_map, or the pair of
+    big_maps (kept unpaired on the stack during the run, the first on top)."""
     push = lambda t, v: {'prim': 'PUSH', 'args': [T.t_to_micheline(t), T.v_to_micheline(t, v)]}
+    two = len(w.maps) == 2
     code = [{'prim': 'CDR'}]
-    if w.cfg['source'] == 'fresh':
-        code += [{'prim': 'DROP'}, {'prim': 'EMPTY_BIG_MAP', 'args': [w.kt_expr, w.vt_expr]}]
+    if two:
+        code.append({'prim': 'UNPAIR'})
+    elif w.cfg['source'] == 'fresh':
+        code += [{'prim': 'DROP'}, {'prim': 'EMPTY_BIG_MAP', 'args': [w.maps[0].kt_expr, w.maps[0].vt_expr]}]
     for op in history:
-        k = w.keys[op[1]]
+        sp, k = w.slot(op[1])
+        if sp.m == 1:
+            code.append({'prim': 'SWAP'})
         if op[0] in ('GET', 'MEM'):
-            code += [{'prim': 'DUP'}, push(w.KT, k), {'prim': op[0]}, {'prim': 'DROP'}]
+            code += [{'prim': 'DUP'}, push(sp.KT, k), {'prim': op[0]}, {'prim': 'DROP'}]
         elif op[0] == 'UPDATE':
-            code += [push(('option', VT), OPTS[op[2]]), push(w.KT, k), {'prim': 'UPDATE'}]
+            code += [push(('option', VT), OPTS[op[2]]), push(sp.KT, k), {'prim': 'UPDATE'}]
         else:
-            code += [push(('option', VT), OPTS[op[2]]), push(w.KT, k), {'prim': 'GET_AND_UPDATE'}, {'prim': 'DROP'}]
+            code += [push(('option', VT), OPTS[op[2]]), push(sp.KT, k), {'prim': 'GET_AND_UPDATE'}, {'prim': 'DROP'}]
+        if sp.m == 1:
+            code.append({'prim': 'SWAP'})
+    if two:
+        code.append({'prim': 'PAIR'})
     code += [{'prim': 'NIL', 'args': [{'prim': 'operation'}]}, {'prim': 'PAIR'}]
-    script = [{'prim': 'parameter', 'args': [{'prim': 'unit'}]}, {'prim': 'storage', 'args': [w.bm_expr]}, {'prim': 'code', 'args': [code]}]
-    storage = {'int': str(CHAIN_ID)} if w.cfg['source'] == 'chain' else (w.literal_expr() if w.cfg['source'] == 'literal' else [])
+    if w.cfg['source'] == 'fresh':
+        ty, storage = w.maps[0].bm_expr, []
+    else:
+        ty, storage = section_of(w.maps)
+    script = [{'prim': 'parameter', 'args': [{'prim': 'unit'}]}, {'prim': 'storage', 'args': [ty]}, {'prim': 'code', 'args': [code]}]
     return script, storage
 
 
@@ -390,106 +643,138 @@ def run_code_diff(cfg, history):
     return w, ld, st, None
 
 
-def check_state(cfg, history, last_desc, want_e2e=True):
-    """Invariant of the state reached by `history` (replayed from scratch).  -> (violations, canon, diff content)."""
+def check_state(cfg, history, last_desc, want_e2e=True, prepared=None):
+    """Invariant of the state reached by `history` (replayed from scratch; `prepared` = (world, big_maps, references) of a
+    replay the caller has just made on a fresh world and will not use again).  -> (violations, canon core, diff contents)."""
     out = []
-    w, bm, ref, _ = replay_direct(cfg, history)
-    canon = w.canon(bm)
-    ld = []
-    try:
-        res = bm.aggregate_lazy_diff(ld)
-    except Exception as e:
-        reraise_gap(e)
-        return [(f'aggregate_lazy_diff raises {type(e.__cause__ or e).__name__} {last_desc}', repr(e))], canon, None
-    vs, content = judge_diff(w, ld, ref, 'aggregate_lazy_diff')
-    out += [(f'{what} {last_desc}', det) for what, det in vs]
-    if content is not None and not vs:
+    w, bms, refs = prepared or replay_direct(cfg, history)[:3]
+    last_desc += w.tag
+    core = w.canon_core(bms)
+    contents_, clean = [], True
+    for sp, bm, ref in zip(w.maps, bms, refs):
+        ld = []
         try:
-            out += [(f'{what} {last_desc}', det) for what, det in judge_merge(w, ld, res, ref)]
+            res = bm.aggregate_lazy_diff(ld)
         except Exception as e:
-            out.append((f'merge_lazy_diff raises {type(e.__cause__ or e).__name__} {last_desc}', repr(e)))
-    if want_e2e and cfg['source'] != 'copy':
-        w2, ld2, st2, err = run_code_diff(cfg, history)
+            reraise_gap(e)
+            out.append((f'aggregate_lazy_diff raises {type(e.__cause__ or e).__name__} {last_desc}', repr(e)))
+            contents_.append(None)
+            clean = False
+            continue
+        vs, content = judge_diff(w, sp, ld, ref, 'aggregate_lazy_diff')
+        out += [(f'{what} {last_desc}', det) for what, det in vs]
+        contents_.append(content)
+        clean = clean and not vs
+        if content is not None and not vs:
+            try:
+                out += [(f'{what} {last_desc}', det) for what, det in judge_merge(w, sp, ld, res, ref)]
+            except Exception as e:
+                out.append((f'merge_lazy_diff raises {type(e.__cause__ or e).__name__} {last_desc}', repr(e)))
+    if want_e2e and w.e2e:
+        try:
+            w2, ld2, st2, err = run_code_diff(cfg, history)
+        except Exception as e:
+            reraise_gap(e)
+            w2, ld2, err = None, None, f'run_code raised {e!r}'
         if err is not None:
             out.append((f'run_code fails on a well-typed big_map program {last_desc}', err))
         else:
-            vs2, content2 = judge_diff(w2, ld2, ref, 'run_code')
-            # the directly driven diff was already judged: report run_code only where it adds something
-            if vs2 and not vs:
-                out += [(f'{what} {last_desc}', det) for what, det in vs2]
-            if content is not None and content2 is not None and content != content2:
-                out.append((f'run_code lazy_diff differs from aggregate_lazy_diff on the same history {last_desc}',
-                            f'{content2} vs {content}'))
-    return out, canon, content
+            parts = attribute(w2, ld2)
+            if parts is None:
+                out.append((f'run_code: lazy_diff entries do not match the big_maps of the storage {last_desc}', json.dumps(ld2)[:600]))
+            else:
+                for sp, part, ref, content in zip(w2.maps, parts, refs, contents_):
+                    vs2, content2 = judge_diff(w2, sp, part, ref, 'run_code')
+                    # the directly driven diff was already judged: report run_code only where it adds something
+                    if vs2 and clean:
+                        out += [(f'{what} {last_desc}', det) for what, det in vs2]
+                    if content is not None and content2 is not None and content != content2:
+                        out.append((f'run_code lazy_diff differs from aggregate_lazy_diff on the same history {last_desc}',
+                                    f'{content2} vs {content}'))
+    return out, core, contents_
 
 
 # --------------------------------------------------------------------------------------------- BFS
 def explore(cfg, r: Result, tier):
     w = World(cfg)
-    ops = alphabet(cfg['nk'])
-    cfg_key = (cfg['kt'], cfg['nk'], cfg['source'], tuple(cfg['content']))
+    # One big_map: the explorer's objects live in ONE context for the whole run (the context tables are fixed per run).
+    # Two big_maps share the context on purpose, so what the context carries from call to call is part of the case: every
+    # transition is executed on a fresh world on which exactly the history of its pre-state has been replayed.
+    exact = len(w.maps) == 2
+    nslots = cfg['nk'] * len(w.maps)
+    ops = alphabet(nslots, cfg.get('opts'))
+    cfg_key = cfg_key_of(cfg)
     case0 = {'cfg': cfg, 'history': []}
     ref0 = w.reference()
-    r.state((cfg_key, ref0.canon(), w.canon(w.bm)))
+    r.state((cfg_key, refs_canon(ref0), w.canon(w.bms)))
     vs, _, _ = check_state(cfg, [], 'in the initial state')
     r.traces += 1
     for d, det in vs:
         r.viol(d, case0, det)
     r.sample(case0)
-    frontier = [] if vs else [(w.bm, ref0, [])]
+    frontier = [] if vs else [(w.bms, ref0, [], w.canon(w.bms))]
     depth = 0
     nstates = 1
     last_case = case0
     while frontier:
-        if depth >= cfg['cap'] or nstates > 5 * 4 ** cfg['nk']:   # a correct implementation has at most 4^|K| states
+        if depth >= cfg['cap'] or nstates > 5 * 4 ** nslots:   # a correct implementation has at most 4^(keys) states
             r.cap(f'cap reached (depth {depth}, {nstates} states) with unexpanded states: configuration {cfg_key}')
             break
         depth += 1
         nxt = []
-        for bm, ref, hist in frontier:
-            pre = (ref.canon(), w.canon(bm))
+        for bms, refs, hist, canon in frontier:
+            pre = (refs_canon(refs), canon)
             for op in ops:
                 r.ev()
                 r.transitions += 1
                 h2 = hist + [list(op)]
                 case = {'cfg': cfg, 'history': h2}
                 last_case = case
-                rk = w.keys[op[1]]
-                status = ref.status(rk)
+                sp, rk = w.slot(op[1])
+                status = refs[sp.m].status(rk)
                 desc = f'after {op_class(op)} on {status} key'
                 if len(op) == 3 or status != 'absent':
                     r.nt((cfg_key, pre, op))
-                exp_obs, ref2 = ref.step(ref_op(w, op))
+                exp_obs, refs2 = ref_step(w, refs, op)
                 try:
-                    obs, bm2 = w.step(bm, op)
+                    if exact:
+                        wt, bms_t, _, _ = replay_direct(cfg, hist)
+                        r.traces += 1
+                    else:
+                        wt, bms_t = w, bms
+                    obs, bms2 = wt.step(bms_t, op)
                 except Exception as e:
                     reraise_gap(e)
                     r.out(f'{op[0]} raises')
-                    r.viol(f'{op_class(op)} raises {type(e.__cause__ or e).__name__} on {status} key', case,
+                    r.viol(f'{op_class(op)} raises {type(e.__cause__ or e).__name__} on {status} key{w.tag}', case,
                            f'{cfg_key} history {[op_text(w, o) for o in h2]}: {e!r}')
                     continue
                 if obs != exp_obs:
                     r.out(f'{op[0]} observation differs')
-                    r.viol(f'{op_class(op)} observation wrong on {status} key', case,
+                    r.viol(f'{op_class(op)} observation wrong on {status} key{w.tag}', case,
                            f'{cfg_key} history {[op_text(w, o) for o in h2]}: got {obs}, dictionary says {exp_obs}')
                     continue
-                r.out(f'{op_class(op)} on {status} key -> {"-" if obs is None else ("Some" if obs[1] not in (None, False, True) else obs[1])}')
-                st_key = (cfg_key, ref2.canon(), w.canon(bm2))
+                r.out(f'{op_class(op)} on {status} key -> {"-" if obs is None else ("Some" if obs[1] not in (None, False, True) else obs[1])}'
+                      + (' (2 maps)' if w.tag else ''))
+                c2 = wt.canon(bms2)
+                if exact:
+                    c2 = (c2, tuple(sorted(set(wt.node.calls))))   # what the context has asked the node so far is part of the state
+                st_key = (cfg_key, refs_canon(refs2), c2)
                 if not r.state(st_key):
                     continue
                 nstates += 1
-                vs, canon2, _ = check_state(cfg, h2, desc, want_e2e=True)
-                r.traces += 1 + (cfg['source'] != 'copy')
-                if canon2[:3] != w.canon(bm2)[:3]:
-                    raise RuntimeError(f'harness: replay of {h2} reaches {canon2}, BFS state is {w.canon(bm2)}')
+                vs, core2, _ = check_state(cfg, h2, desc, want_e2e=True, prepared=(wt, bms2, refs2) if exact else None)
+                r.traces += (not exact) + w.e2e
+                if core2 != wt.canon_core(bms2):
+                    raise RuntimeError(f'harness: replay of {h2} reaches {core2}, BFS state is {wt.canon_core(bms2)}')
                 if vs:
                     r.out('state invariant broken')
                     for d, det in vs:
                         r.viol(d, case, f'{cfg_key} history {[op_text(w, o) for o in h2]}: {det}')
                     continue
-                nxt.append((bm2, ref2, h2))
+                nxt.append((bms2, refs2, h2, c2))
         frontier = nxt
-    r.extra[f'closure depth {depth}'] += 1
+    r.extra[f'closure depth {depth} ({len(w.maps)} map{"s" if w.tag else ""}, |K|={cfg["nk"]})'] += 1
     r.sample(last_case)
 
 
@@ -504,21 +789,22 @@ def replay(case):
     cfg, history = case['cfg'], [tuple(o) for o in case['history']]
     out = []
     w = World(cfg)
-    bm, ref = w.bm, w.reference()
+    bms, refs = w.bms, w.reference()
     vs, _, _ = check_state(cfg, [], 'in the initial state')
     out += vs
     for i, op in enumerate(history):
-        status = ref.status(w.keys[op[1]])
+        sp, rk = w.slot(op[1])
+        status = refs[sp.m].status(rk)
         desc = f'after {op_class(op)} on {status} key'
-        exp_obs, ref = ref.step(ref_op(w, op))
+        exp_obs, refs = ref_step(w, refs, op)
         try:
-            obs, bm = w.step(bm, op)
+            obs, bms = w.step(bms, op)
         except Exception as e:
             reraise_gap(e)
-            out.append((f'{op_class(op)} raises {type(e.__cause__ or e).__name__} on {status} key', repr(e)))
+            out.append((f'{op_class(op)} raises {type(e.__cause__ or e).__name__} on {status} key{w.tag}', repr(e)))
             break
         if obs != exp_obs:
-            out.append((f'{op_class(op)} observation wrong on {status} key',
+            out.append((f'{op_class(op)} observation wrong on {status} key{w.tag}',
                         f'step {i} {op_text(w, op)}: got {obs}, dictionary says {exp_obs}'))
             break
         vs, _, _ = check_state(cfg, [list(o) for o in history[:i + 1]], desc)
@@ -531,10 +817,12 @@ def replay(case):
 def observe(case):
     cfg, history = case['cfg'], [tuple(o) for o in case['history']]
     try:
-        w, bm, ref, obs = replay_direct(cfg, history)
-        ld = []
-        bm.aggregate_lazy_diff(ld)
-        ups = sorted(json.dumps(u, sort_keys=True) for d in ld for u in d['diff']['updates'])
-        return {'obs': [repr(o) for o in obs], 'canon': repr(w.canon(bm)), 'diff': ups, 'calls': w.node.calls}
+        w, bms, refs, obs = replay_direct(cfg, history)
+        ups = []
+        for bm in bms:
+            ld = []
+            bm.aggregate_lazy_diff(ld)
+            ups.append(sorted(json.dumps(u, sort_keys=True) for d in ld for u in d['diff']['updates']))
+        return {'obs': [repr(o) for o in obs], 'canon': repr(w.canon(bms)), 'diff': ups, 'calls': w.node.calls}
     except Exception as e:
         return {'raises': repr(e)}
